@@ -29,8 +29,8 @@ RULES = {
     "R-map": "`r.map(C)` / `r.map(|v| E)` on a Result desugared to `match r { Ok(v) => Ok(C(v)), Err(e) => Err(e) }` (the definition of Result::map); where the mapped callee is a gc allocation or trait-object call it is named by the env helper carrying its assumed contract",
     "R-arm": "a match arm of the interpreter loop wrapped as a function (signature from spec.toml: pattern variables become parameters, `self` becomes the context parameter); only the arm's own statements are verified, not the dispatch -- except for arm GROUPS (`group = <scrutinee>`), where every arm whose header matches is taken in source order and re-assembled as a `match` on the scrutinee parameter, so guards and arm order are verified too",
     "R-block": "one block expression of a function (located by its header) wrapped as a function whose parameters are the block's free variables; only that block's statements are verified",
-    "R-head": "the statements of a function from its beginning up to a located statement (e.g. the argument validation in front of an allocation), wrapped as a function that returns a marker when the end of the head is reached",
-    "R-tail": "the statements of a function from a located statement to the end of its body, wrapped as a function whose parameters are the live variables at that point",
+    "R-head": "the statements of a function (or, with `inside`, of one located block in it) from its beginning up to a located statement (e.g. the argument validation in front of an allocation, the poll at the head of a loop body), wrapped as a function that returns a marker when the end of the head is reached",
+    "R-tail": "the statements of a function (or, with `inside`, of one located block in it: a loop body, a closure body) from a located statement to the end of that body -- or, with `end`, up to another located statement -- wrapped as a function whose parameters are the live variables at that point",
     "R-slice": "slice/Vec API call mapped to the env helper with the std semantics stated as its contract",
 }
 
@@ -198,6 +198,12 @@ def _extract_tail(t):
     if hit is None:
         raise Broken("tail start %r not found at statement level in %s::%s" % (t["start"], t["file"], t["fn"]))
     a = lo + 1 + hit.start()
+    if t.get("end"):
+        # a statement RANGE: up to (excluding) the first statement-level match of `end` after the start
+        stop = next((m for m in re.finditer(t["end"], region_m) if depth_at[m.start()] == 0 and m.start() > hit.start()), None)
+        if stop is None:
+            raise Broken("tail end %r not found at statement level in %s::%s" % (t["end"], t["file"], t["fn"]))
+        return "{ " + src[a:lo + 1 + stop.start()] + t.get("tail", "") + " }", src.count("\n", 0, a) + 1
     return "{ " + src[a:hi] + " }", src.count("\n", 0, a) + 1
 
 
